@@ -261,7 +261,7 @@ PROPS["C09"] = dict(
                "(from_parser_correct: conditions in declaration order; from_parser_any_order_correct / from_parser_any_fact_order: the real placement by formula_order for facts in ANY order, labels "
                "resolved through the dict, a missing condition is bottom, the last of several wins, and it panics exactly on an undeclared label or atom: from_parser_panics_exactly, "
                "from_parser_zero_or_several; from the TEXT: C01.grounded_from_text); the bridge replay of an ordered dump through node yields handles with the dump's functions in any well-formed store (bridge_preserves); the pre-grounded "
-               "function is the condition with the grounded values substituted (pregrounded_function). VERIFIED VALIDATOR: isoCheck (validator_sound) is executed on every explored real store: "
+               "function is the condition with the grounded values substituted (hybrid_import_function, biodivine_residual_is_pregrounded: theorems about the model of hybrid_step_opt). VERIFIED VALIDATOR: isoCheck (validator_sound) is executed on every explored real store: "
                "after wfCheck of the dumped table, every statement's handle in the bridged / pre-grounded store is compared with the model's natively compiled handle (resp. grounded residual) "
                "without truth tables - so each compiled ADF is validated individually, also for 24-48 statements with deep formulas. Native stores are compared handle for handle with the model.",
     level_note="Trusted: Lean kernel + standard axioms; biodivine's own compilation is outside (its dump is validated, not its algorithm); the driver's placement of permuted facts is the proved FromParser.placeCompile; correspondence differential.",
@@ -347,7 +347,7 @@ PROPS["C15"] = dict(
                "(C15.cli_faithful; composition of the exactness theorems of C01-C05, the pre-grounding lemmas and SpecSound; hypothesis: the nogood-search sections halt within the model's fixed "
                "fuel of 10^6 iterations - unconditional without --twoval/--stmng (cli_faithful_without_search_flags) and for every sufficiently large bound (cli_faithful_every_large_bound)); the three "
                "modes print the same sets for common sections (modes_print_same_sets); the printed sections are exactly the requested ones the mode implements (sections_exact), in the documented "
-               "order (sections_in_documented_order), each once (sections_nodup), one block per section (run_blocks); malformed input gives a non-zero exit and no output (rejects_malformed). "
+               "order (sections_in_documented_order), each once (sections_nodup), one block per section (run_blocks); malformed input gives a non-zero exit and no output in every arm, from the TEXT (rejects_malformed_text, rejects_ill_formed_adf). "
                "Tie to the code: the REAL adf-bdd binary, built from the current tree, is run on generated files x --lib {naive, biodivine, hybrid} x {none, --lx, --an} x single flags and random "
                "flag sets x --heu, with alphanumeric, keyword-like, numeric and quoted (non-ASCII, quote, backslash) labels: exit status, format of every line (each statement labelled by its own name, "
                "in variable order) and the line sequence are compared with the model; the specification judges the output section by section in the documented order; --counter nai is compared with "
@@ -553,6 +553,38 @@ import webchecks  # noqa: E402
 webchecks.register(PROPS)
 
 # ----------------------------------------------------------------------------------------------
+
+
+# ----------------------------------------------------------------------------------------------
+# round 2 (repairs after the independent review, review_props_2026-09-27.md): sentences appended to the level texts
+ROUND2 = {
+ "C01": " HYBRID PIPELINE COMPOSED (round 2): Bio.hybridStep models hybrid_step_opt (optional biodivine grounding over a lawful library, dump, replay through node into one native store); "
+        "hybrid_grounded_is_lfp / hybrid_grounded_from_formulas: the native grounding loop on the hybrid-built object returns the least fixpoint of the ORIGINAL framework, for both flags, and equals biodivine's own answer; "
+        "grounded_native_from_formulas restated with n = number of formulas and atoms below n; kernel-checked instance with three propagating rounds.",
+ "C02": " Round 2: hybrid_complete_exact / hybrid_complete_from_formulas (complete enumeration on the hybrid-built native object, both flags: Nodup, exactly the fixpoints, grounded first); non-trivial kernel-checked instances (mutual attack).",
+ "C03": " Round 2: hybrid_stable_exact (stable + pre-filter), hybrid_count_search_exact, hybrid_ng_search_exact on the hybrid-built object for both flags; native_rewriting_exact_from_formulas derives the 'same functions' hypothesis from the common written framework.",
+ "C04": " Round 2: count_search_exact_branching_instance - the exactness theorem instantiated on the three-statement pre-study framework where grounding decides nothing and the search must branch (both heuristics; FFF found, the non-stable two-valued model TTT excluded); cube laws on a non-empty cube list.",
+ "C05": " CHANNEL VARIANTS (round 2): Channel/NgChannel model producer loop + FIFO channel (unbounded or bounded(k), blocking sends) + consumer under EVERY schedule; channel_variants_deliver_exactly: received ++ queued is always a prefix of the search result, "
+        "the sender is dropped exactly after the last send (log = sends then one close), nothing is sent after closing, a finished consumer holds exactly the result, every fair schedule finishes (capacity >= 1); iterator_variant_exact; "
+        "heuristic_totality_necessary: a heuristic answering None at its first call loses every model, so the totality hypothesis of ng_search_exact_any_heuristic cannot be dropped (none_answer_is_a_conflict models what the code does).",
+ "C06": " Round 2: ONE reachability theorem - inductive Reach (fresh store, any operation on valid handles, both node-list rebuilds, export+import+fix_import with arbitrary bookkeeping, bridge replay of a well-formed dump) and reach_wf / reach_same_handle_iff_same_function.",
+ "C08": " Round 2: CLI link from the text - cli_no_answer_for_rejected_text: when parse t = none (or from_parser panics) every arm of the text-level CLI model CliM.runText exits 101 with empty output.",
+ "C09": " Round 2: hybrid_import_function replaces the definitional pregrounded_function: every bridged handle of the model of hybrid_step_opt denotes the statement's condition (opt=false) resp. the condition restricted by the least fixpoint (opt=true); bridge_ignores_terminal_entries (the first two dump entries are never read, as in from_biodivine_vector).",
+ "C11": " CALL HISTORIES ON ONE OBJECT (round 2): inductive Call (grounded, complete, stable, pre-filter, both counting searches, nogood search in both modes with every heuristic, count/path/dependency queries, extra formulas) and runCalls over the definitions the driver runs; "
+        "history_invariant (after any history: store well formed, ac unchanged, every issued handle unchanged with the same function, node table only grown), answers_history_independent (answer of any call after any history = answer on the fresh object; sets with Nodup, complete: grounded first; queries: equal numbers), "
+        "ng_halts_after_history, answers_memo_independent_partial (answers IN ORDER and node tables do not depend on memo contents; proved for all calls except the two searches, full statement kept as def).",
+ "C12": " SEMANTICS UNDER EVERY FEATURE SET (round 2): semantics_feature_independent - simulation Rel between the configured store (any Cfg, any origin) and the reference store: grounded, complete, stable, both counting searches and the nogood search (every heuristic, mode, fuel; trace and halting flag) return the same vectors handle for handle; "
+        "cli_sections_feature_independent (all nine CLI sections); frontend is now READ by the model: frontend_channel (with a sender attached the log is exactly the created nodes in creation order, answers unchanged), no_sender_no_log; cubes_impacts_feature_independent, restrict_feature_independent_total, answers_after_import (the models exception stated exactly), import_without_fix.",
+ "C13": " Round 2: cubes_exact (one statement for EVERY handle: disjoint, sound, consistent with the goal variable, covering exactly for non-terminals; empty for the two constants = the documented reading), impacts restated against Essential (no definitional conjunct), more_models_iff against counts of satisfying assignments, more_models_word_iff for the 64-bit arithmetic.",
+ "C14": " Round 2: instantiated answers after both round trips - complete_after_roundtrip, stable_after_roundtrip, count_search_after_roundtrip, nogood_search_after_roundtrip, grounded_after_rebuild; concrete decimal codec (simplified_roundtrip_decimal, no codec hypothesis).",
+ "C15": " THREE DIFFERENT ARMS FROM THE TEXT (round 2): CliM.runText models main.rs per arm (parse, --lx/--an sorting before building, naive = from_parser + native sections; biodivine = library-side from_parser + Bio.bioGrounded/bioComplete/bioStable/bioStableRep; hybrid = library grounding, dump, bridge, native sections) with PrintableInterpretation's rendering; "
+        "cli_text_faithful (every well-formed text, every mode/flags/sorting/heuristic: exit 0, one block per requested implemented section in documented order, each block a permutation of the specification's answer), three_modes_print_same_sets (now between three different computations), line_format / mark_is_value, lx_prints_in_bytewise_order, "
+        "rejects_malformed_text, naive_arm_is_driver_model (the naive arm IS the Cli.run the driver executes against the binary), library_arms_panic_on_special_labels (model-level statement of known finding D6; the library arms carry the hypothesis bioNameOK). The two vacuous theorems of round 1 are deleted.",
+ "C17": " Round 2: touches split into acts-for and mentions (touches_split); mentions_only_harmless (register/update/login that merely NAME an existing account leave its data, credential and responses unchanged; the other user gets 409), isolation_mentions_allowed, noop_event_unobservable, stored_uses_request_salt.",
+ "C19": " RELAY CHAIN OF ANY LENGTH (round 2): StreamChain - producer, k relays, all interleavings of create/deliver/poll/drop: chain_mirror_prefix, chain_same_node, chain_poll_found, chain_drained_equal, chain_drain_reaches_equal, chain_relay_independent_of_downstream, chain_after_drop; one_relay_is_chain2 links the round-1 theorems.",
+}
+for _p, _t in ROUND2.items():
+    PROPS[_p]["level_text"] += _t
 
 def case_hash(reqs):
     return hashlib.sha1("\n".join(reqs[1:]).encode()).hexdigest()[:16]
